@@ -242,16 +242,17 @@ func loadKnown() []KnownFinding {
 }
 
 type checkSpec struct {
-	id        string
-	level     string
-	rule      string
-	shards    int  // 0 = NumCPU
-	gomax1    bool // run workers with GOMAXPROCS=1
-	testMode  bool // additionally run a test-mode worker pass (thorough)
-	build     func(tier string) []buildOpts
-	deadlineQ int
-	deadlineT int
-	pre       func(scratch string, tier string) (map[string]string, error) // generate extra overlay files
+	id            string
+	level         string
+	rule          string
+	shards        int  // 0 = NumCPU
+	gomax1        bool // run workers with GOMAXPROCS=1
+	testMode      bool // additionally run a test-mode worker pass (thorough)
+	testModeQuick bool // ... in the quick tier too
+	build         func(tier string) []buildOpts
+	deadlineQ     int
+	deadlineT     int
+	pre           func(scratch string, tier string) (map[string]string, error) // generate extra overlay files
 }
 
 func main() {
@@ -529,7 +530,7 @@ func doCheck(id, tier string, keep bool) int {
 		passes = append(passes, pass{b, false, fmt.Sprintf("b%d", i)})
 	}
 	globalAuxEnv = auxEnv
-	if spec.testMode && tier == "thorough" {
+	if spec.testMode && (tier == "thorough" || spec.testModeQuick) {
 		passes = append(passes, pass{bins[0], true, "testmode"})
 	}
 	passByName := map[string]pass{}
@@ -940,7 +941,7 @@ func doReplay(file string) int {
 			env = append(env, "GOMAXPROCS=1")
 		}
 		r, err := runWorker(scratch, 1, workerRun{bin: bin, testMode: h.Pass == "testmode", env: env,
-			args: []string{"-check", wrap.Property, "-tier", h.Tier, "-shard", strconv.Itoa(h.Shard), "-nshards", strconv.Itoa(h.NShards), "-deadline", "3000", "-until-sig", h.UntilSig},
+			args:    []string{"-check", wrap.Property, "-tier", h.Tier, "-shard", strconv.Itoa(h.Shard), "-nshards", strconv.Itoa(h.NShards), "-deadline", "3000", "-until-sig", h.UntilSig},
 			timeout: 3200 * time.Second})
 		if err != nil {
 			fatal("history replay: %v", err)
